@@ -68,11 +68,17 @@ LostElemental(c) == {r.name : r \in {x \in SeqSet(c.siface) :
                        x.elemuse /\ \E w \in SeqSet(c.wiface) : w.name = x.name /\ ~w.elemental}}
 \* EXIT / CYCLE may only name a construct that exists
 UndefinedNames(c) == SeqSet(c.wrefs) \ SeqSet(c.wdefs)
+\* a routine-local variable the original makes static (SAVE attribute, initial
+\* value, SAVE statement, bare SAVE) is still static in the written text
+\* ("routine:variable", lower case; FortranSem has no static storage, so the
+\* execution clauses cannot see a lost SAVE: this clause alone decides it)
+LostStatic(c) == SeqSet(c.sstatic) \ SeqSet(c.wstatic)
 StaticClauses(c) ==
   IF ~HasStatic(c) THEN {}
   ELSE {x \in {<<"WrittenResultClauseValid", BadResult(c)>>,
                 <<"WriterKeepsRoutines", LostRoutine(c)>>,
                 <<"WriterKeepsElemental", LostElemental(c)>>,
+                <<"WriterKeepsStatic", LostStatic(c)>>,
                 <<"WrittenConstructNamesDefined", UndefinedNames(c)>>} : x[2] # {}}
 ReportStatic(c) == \A x \in StaticClauses(c) : Report(c, x[1], x[2])
 
